@@ -74,6 +74,14 @@ def run_items(chk, items, rule, extra_cov=None):
     return results
 
 
+def tiered(isa, fn, classes, to, n_quick=5, dn=0, **kw):
+    """quick: the quick shape set in a universe of n_quick blocks; thorough: the quick shape set in n_quick + 1 blocks
+    plus the extended shape set (all kinds, all windows, larger arities) in n_quick blocks"""
+    if fw.tier() == 'quick':
+        return items_for(isa, fn(isa, 'quick', **kw), n_quick + dn, classes, to)
+    return items_for(isa, fn(isa, 'quick', **kw), n_quick + 1 + dn, classes, to) + items_for(isa, fn(isa, 'thorough', **kw), n_quick + dn, classes, to)
+
+
 def functional_shapes(isa, tier):
     sh = []
     sh += S.lit_shapes(isa, tier) + S.op_shapes(isa, tier) + S.ifc_shapes(isa, tier) + S.misc_shapes(isa, tier)
@@ -99,12 +107,11 @@ def codegen_check(pid, isa, kani=None, kani_s=0.0):
             chk.report(f"kani/{h}/vacuous", f"{h}: cover goals unsatisfied", {'kani': r})
         else:
             kani_samples.append({'harness': h, 'result': r['result'], 'covers': r['covers']})
-    N = 5 if tier == 'quick' else 6
     to = 120000 if tier == 'quick' else 1800000
     items = items_for(isa, functional_shapes(isa, tier), 4, None, to)
-    # the heap-consistency goals (I', frame of fields) of these shapes are discharged under C09, the footprint
-    # goals under C10; here: fault-freedom, dispatch, loaded / stored values, preserved variables
-    items += items_for(isa, heap_shapes(isa, tier), N, ['functional'] if tier == 'quick' else None, to)
+    # quick: the heap-consistency goals (I', frame of fields) of these shapes are discharged under C09, the footprint
+    # goals under C10; here: fault-freedom, dispatch, loaded / stored values, preserved variables.  thorough: all goals
+    items += tiered(isa, heap_shapes, ['functional'] if tier == 'quick' else None, to)
     run_items(chk, items,
               rule="shapes enumerated exhaustively inside the stated windows/arity/kind bounds (gen/shapes.py); every shape is a "
                    "distinct emitted code fragment; per shape the solver decides fault-freedom, Spec and I' for all data")
@@ -141,15 +148,14 @@ ISAS = ['x86_64', 'aarch64', 'rv64']
 def c09():
     tier = fw.tier()
     chk = fw.Check('C09', 'proof')
-    N = 5 if tier == 'quick' else 6
     to = 120000 if tier == 'quick' else 1800000
     items = []
     for isa in ISAS:
         # quick tier: the store side of create and the load side of method entry repeat let / switch, so they get the
         # smaller universe; let / switch / substitute keep N
-        items += items_for(isa, S.let_shapes(isa, tier) + S.switch_shapes(isa, tier), N, ['heap'], to)
-        items += items_for(isa, S.create_shapes(isa, tier) + S.method_shapes(isa, tier), N - 1 if tier == 'quick' else N, ['heap'], to)
-        items += items_for(isa, S.substitute_shapes(isa, tier, 2, 2), N, ['heap'], to)
+        items += tiered(isa, lambda i, t: S.let_shapes(i, t) + S.switch_shapes(i, t), ['heap'], to)
+        items += tiered(isa, lambda i, t: S.create_shapes(i, t) + S.method_shapes(i, t), ['heap'], to, dn=-1 if tier == 'quick' else 0)
+        items += tiered(isa, lambda i, t: S.substitute_shapes(i, t, 2, 2), ['heap'], to)
     run_items(chk, items, rule="every allocating / loading / substituting statement shape; pre-state = arbitrary heap satisfying I; "
                                "goals = fault-freedom + I' (states, lists, typed fields, exact reference counts) + field frame")
     return chk.finish()
@@ -158,7 +164,7 @@ def c09():
 def c10():
     tier = fw.tier()
     chk = fw.Check('C10', 'proof')
-    N = 5 if tier == 'quick' else 6
+    N = 5
     to = 120000 if tier == 'quick' else 1800000
     items = []
     for isa in ISAS:
@@ -178,17 +184,20 @@ def c10():
 def c11():
     tier = fw.tier()
     chk = fw.Check('C11', 'proof')
-    N = 5 if tier == 'quick' else 6
+    N = 5
     to = 120000 if tier == 'quick' else 1800000
     items = []
-    mm = 3 if tier == 'quick' else 4
     for isa in ISAS:
         if tier == 'quick':
             # all maps m, n <= 3 in a universe of 4 blocks, and the m, n <= 2 subset again in 5 blocks
-            items += items_for(isa, S.substitute_shapes(isa, tier, mm, mm), N - 1, None, to)
+            items += items_for(isa, S.substitute_shapes(isa, tier, 3, 3), N - 1, None, to)
             items += items_for(isa, S.substitute_shapes(isa, tier, 2, 2), N, None, to)
         else:
-            items += items_for(isa, S.substitute_shapes(isa, tier, mm, mm), N, None, to)
+            # all maps m, n <= 3 with three kinds and all windows in 5 blocks, the quick set in 6 blocks, and all maps
+            # m, n <= 4 of integer variables (no heap effect) in 4 blocks
+            items += items_for(isa, S.substitute_shapes(isa, 'thorough', 3, 3), N, None, to)
+            items += items_for(isa, S.substitute_shapes(isa, 'quick', 2, 2), N + 1, None, to)
+            items += items_for(isa, [s_ for s_ in S.substitute_shapes(isa, 'quick', 4, 4) if all(k == 'ext' for k in s_['old']) and (len(s_['old']) == 4 or len(s_['map']) == 4)], N - 1, None, to)
     run_items(chk, items, rule="all maps from m new to n old variables (m, n <= bound), all kind assignments, windows: all-register, "
                                "straddling the register/spill boundary, all-spill")
     return chk.finish()
